@@ -238,19 +238,28 @@ use k::*;
 // ------------------------------------------------------------------------------------------
 // common helpers
 // ------------------------------------------------------------------------------------------
+/// Two host configurations (alternating per trace): persistent entries and the contract instance
+/// outlive every ledger gap of a trace (so that only genuinely persistent state survives and the
+/// library's own extend_ttl calls never trap); they differ in the temporary-entry minimum and sizes.
+static ENV_COUNTER: std::sync::atomic::AtomicU64 = std::sync::atomic::AtomicU64::new(0);
 fn new_env() -> Env {
+    let k = ENV_COUNTER.fetch_add(1, std::sync::atomic::Ordering::Relaxed);
     let e = Env::default();
     e.cost_estimate().budget().reset_unlimited();
     e.cost_estimate().disable_resource_limits();
     e.ledger().with_mut(|l| {
         l.sequence_number = 100;
         l.timestamp = 1_000;
-        l.min_temp_entry_ttl = 1;
-        l.min_persistent_entry_ttl = 1_000_000;
-        l.max_entry_ttl = 10_000_000;
+        if k % 2 == 0 { l.min_temp_entry_ttl = 1; l.min_persistent_entry_ttl = 60_000_000; l.max_entry_ttl = 120_000_000; }
+        else { l.min_temp_entry_ttl = 16; l.min_persistent_entry_ttl = 40_000_000; l.max_entry_ttl = 50_000_000; }
     });
     e
 }
+/// n ledgers pass, nothing is called
+fn advance(e: &Env, n: u64) { e.ledger().with_mut(|l| { l.sequence_number += n as u32; l.timestamp += 5 * n; }); }
+/// the ledger gaps used everywhere: short, one day (+1), beyond the library's 30-day extension, months
+const GAPS: [u64; 6] = [20, 100, 17_281, 20_000, 600_000, 4_000_000];
+macro_rules! tryv { ($e:expr) => { match $e { Ok(Ok(v)) => Some(v), _ => None } } }
 
 /// plain numerals: the Coq header opens N_scope
 fn nn(v: u64) -> String { format!("{}", v) }
@@ -267,7 +276,7 @@ impl Uni {
         Uni { a, m }
     }
     fn id(&self, x: &Address) -> u64 {
-        *self.m.get(&soroban_sdk::xdr::ScAddress::from(x)).unwrap_or_else(|| panic!("address outside the universe"))
+        *self.m.get(&soroban_sdk::xdr::ScAddress::from(x)).unwrap_or(&999_999_999)
     }
     fn ids(&self, xs: &Vec<Address>) -> std::vec::Vec<u64> { xs.iter().map(|x| self.id(&x)).collect() }
     fn vec(&self, e: &Env, idx: &[usize]) -> Vec<Address> {
@@ -296,7 +305,12 @@ impl Tr {
     fn push(&mut self, out: &mut Out, label: &str, call: &str, ok: Option<String>, queries: std::vec::Vec<String>) {
         let o = match &ok { Some(v) => format!("(Ok {})", v), None => "Fail".to_string() };
         out.case(&format!("{}/{}", label, if ok.is_some() { "ok" } else { "fail" }), call);
-        self.ev.push(format!("({}, {}, {})", call, o, list(&queries)));
+        self.ev.push(format!("(Call ({}), {}, {})", call, o, list(&queries)));
+    }
+    /// a ledger gap: `dflt` is the outcome term recorded for it ("tt" or "None")
+    fn advance(&mut self, out: &mut Out, reg: &str, n: u64, dflt: &str, queries: std::vec::Vec<String>) {
+        out.case(&format!("{}.advance.{}/ok", reg, if n >= 500_000 { "long" } else { "short" }), &format!("Advance {}", n));
+        self.ev.push(format!("(Advance {}, (Ok {}), {})", n, dflt, list(&queries)));
     }
     fn len(&self) -> usize { self.ev.len() }
 }
@@ -315,16 +329,18 @@ impl<'a> Tb<'a> {
         let u = Uni::new(&e, n);
         Tb { e, c, u }
     }
-    fn linked(&self) -> std::vec::Vec<u64> { self.u.ids(&self.c.linked()) }
+    fn linked(&self) -> std::vec::Vec<u64> { tryv!(self.c.try_linked()).map(|v| self.u.ids(&v)).unwrap_or_default() }
     /// queries: `full` = list + count; token probes; index probes
     fn queries(&self, full: bool, toks: &[usize], idxs: &[u32]) -> std::vec::Vec<String> {
         let mut q = vec![];
-        let lv = self.c.linked();
-        if full { q.push(format!("(TqLinked, TaList {})", nlist(&self.u.ids(&lv)))); }
-        q.push(format!("(TqCount, TaNat {})", lv.len()));
+        match tryv!(self.c.try_linked()) {
+            Some(lv) => { if full { q.push(format!("(TqLinked, TaList {})", nlist(&self.u.ids(&lv)))); }
+                          q.push(format!("(TqCount, TaNat {})", lv.len())); }
+            None => { q.push("(TqLinked, TaTrap)".into()); }
+        }
         for &t in toks {
             let a = &self.u.a[t];
-            q.push(format!("(TqIsBound {}, TaBool {})", t, b(self.c.is_bound(a))));
+            q.push(match tryv!(self.c.try_is_bound(a)) { Some(x) => format!("(TqIsBound {}, TaBool {})", t, b(x)), None => format!("(TqIsBound {}, TaTrap)", t) });
             let r = match self.c.try_index_of(a) { Ok(Ok(i)) => okv(&nn(i as u64)), _ => "Fail".into() };
             q.push(format!("(TqIndexOf {}, TaIdx {})", t, r));
         }
@@ -363,6 +379,11 @@ fn run_binder(out: &mut Out, rng: &mut Rng) {
         let ncalls = if thorough { 60 } else { 30 };
         let mut last_touched = 0usize;
         for _ in 0..ncalls {
+            if rng.chance(1, 10) {
+                let n = *rng.pick(&GAPS); advance(&t.e, n);
+                let idx: std::vec::Vec<u32> = (0..(t.linked().len() as u32 + 2)).collect();
+                tr.advance(out, "tb", n, "tt", t.queries(true, &all, &idx));
+            }
             let cur = t.linked();
             let pick_bound = |rng: &mut Rng| -> usize {
                 if cur.is_empty() { rng.below(nu as u64) as usize } else {
@@ -431,7 +452,12 @@ fn run_binder(out: &mut Out, rng: &mut Rng) {
         }
         let ncalls = if thorough { 40 } else { 22 };
         let mut hole: Option<u32> = None; // index where the last swap landed
-        for _ in 0..ncalls {
+        for step in 0..ncalls {
+            if step == 0 || rng.chance(1, 8) {
+                let n = if step == 0 { 4_000_000 } else { *rng.pick(&GAPS) }; advance(&t.e, n);
+                let c0 = t.linked().len() as u32;
+                tr.advance(out, "tb", n, "tt", t.queries(true, &[0, (bs - 1).min(nu - 1), bs.min(nu - 1)], &[0, (bs - 1) as u32, bs as u32, c0.saturating_sub(1), c0]));
+            }
             let cur = t.linked();
             let cnt = cur.len();
             let mut probes_t: std::vec::Vec<usize> = vec![];
@@ -510,6 +536,8 @@ fn run_binder(out: &mut Out, rng: &mut Rng) {
             if t.preload(&ts).is_none() { panic!("binder preload fixture failed"); }
             header = format!("TrBinder {} {} {}", tbl::BUCKET_SIZE, tbl::MAX_TOKENS, nlist(&ts.iter().map(|x| *x as u64).collect::<std::vec::Vec<_>>()));
         }
+        advance(&t.e, 4_000_000);
+        tr.advance(out, "tb", 4_000_000, "tt", light(&t, &[0, next - 1], next));
         // a batch that would end one past the limit is refused, the one ending at the limit accepted
         let ts: std::vec::Vec<usize> = (next..next + bs + 1).collect();
         let r = t.bind_many(&ts);
@@ -526,6 +554,8 @@ fn run_binder(out: &mut Out, rng: &mut Rng) {
             let r = t.bind_many(&[]);
             tr.push(out, "tb.bind_many.limit", &tb_many_call(&[]), r, light(&t, &[next], maxt));
         }
+        advance(&t.e, 600_000);
+        tr.advance(out, "tb", 600_000, "tt", light(&t, &[0, maxt - 1, maxt], maxt));
         let victim = rng.below(maxt as u64) as usize;
         let r = t.unbind(victim);
         tr.push(out, "tb.unbind", &format!("TbUnbind {}", victim), r, light(&t, &[victim, maxt - 1], maxt - 1));
@@ -578,7 +608,7 @@ impl<'a> Dm<'a> {
         let c = DocsCClient::new(&e, &id);
         Dm { e, c, ts: 1000 }
     }
-    fn count(&self) -> u32 { self.c.count() }
+    fn count(&self) -> u32 { tryv!(self.c.try_count()).unwrap_or(0) }
     /// returns (call text, outcome)
     fn set(&mut self, name: u64, k: u64, len: u64, hash: u64, rng: &mut Rng) -> (String, Option<String>) {
         self.ts += rng.below(3);
@@ -592,7 +622,7 @@ impl<'a> Dm<'a> {
         (format!("DmRemove {}", name), unit_ok(self.c.try_remove_doc(&bn32(&self.e, name))))
     }
     fn queries(&self, names: &[u64], idxs: &[u32], bks: &[u32]) -> std::vec::Vec<String> {
-        let mut q = vec![format!("(DqCount, DaNat {})", self.c.count())];
+        let mut q = vec![match tryv!(self.c.try_count()) { Some(n) => format!("(DqCount, DaNat {})", n), None => "(DqCount, DaTrap)".into() }];
         for &n in names {
             let r = match self.c.try_get(&bn32(&self.e, n)) { Ok(Ok(d)) => okv(&doc_coq(&d)), _ => "Fail".into() };
             q.push(format!("(DqGet {}, DaDoc {})", n, r));
@@ -602,8 +632,9 @@ impl<'a> Dm<'a> {
             q.push(format!("(DqByIndex {}, DaEntry {})", i, r));
         }
         for &k in bks {
-            let v: std::vec::Vec<String> = self.c.bucket(&k).iter().map(|x| entry_coq(&x)).collect();
-            q.push(format!("(DqBucket {}, DaList {})", k, list(&v)));
+            q.push(match tryv!(self.c.try_bucket(&k)) {
+                Some(bk) => { let v: std::vec::Vec<String> = bk.iter().map(|x| entry_coq(&x)).collect(); format!("(DqBucket {}, DaList {})", k, list(&v)) }
+                None => format!("(DqBucket {}, DaTrap)", k) });
         }
         q
     }
@@ -627,6 +658,11 @@ fn run_docs(out: &mut Out, rng: &mut Rng) {
         let ncalls = if thorough { 60 } else { 30 };
         let mut present: std::vec::Vec<u64> = vec![];
         for _ in 0..ncalls {
+            if rng.chance(1, 10) {
+                let n = *rng.pick(&GAPS); advance(&d.e, n);
+                let idx: std::vec::Vec<u32> = (0..d.count() + 2).collect();
+                tr.advance(out, "dm", n, "tt", d.queries(&names, &idx, &[0, 1]));
+            }
             let (label, call, r);
             match rng.below(10) {
                 0..=4 => { let n = rng.below(nu);
@@ -676,20 +712,26 @@ fn run_docs(out: &mut Out, rng: &mut Rng) {
             tr.push(out, "dm.set", &call, r, d.queries(&[], &[], &[]));
         }
         let ncalls = if thorough { 40 } else { 22 };
-        for _ in 0..ncalls {
+        for step in 0..ncalls {
+            if step == 0 || rng.chance(1, 8) {
+                let n = if step == 0 { 4_000_000 } else { *rng.pick(&GAPS) }; advance(&d.e, n);
+                let c0 = d.count();
+                tr.advance(out, "dm", n, "tt", d.queries(&[0, (bs - 1), bs], &[0, (bs - 1) as u32, bs as u32, c0.saturating_sub(1), c0], &[0, 1, 2, 3]));
+            }
             let cnt = d.count() as u64;
             let mut probes: std::vec::Vec<u64> = vec![0];
             let (label, call, r);
             match rng.below(10) {
                 0..=2 => { let n = next; next += 1; probes.push(n); let (c2, r2) = d.set(n, 1 + rng.below(9), 1 + rng.below(3), n % 7, rng);
                            if r2.is_some() { order.push(n); } label = "dm.set"; call = c2; r = r2; }
-                3 if cnt > 0 => { let n = *rng.pick(&order); probes.push(n); let (c2, r2) = d.set(n, 1 + rng.below(9), 1 + rng.below(3), rng.below(9), rng); label = "dm.set"; call = c2; r = r2; }
-                4..=8 if cnt > 0 => {
+                3 if cnt > 0 && !order.is_empty() => { let n = *rng.pick(&order); probes.push(n); let (c2, r2) = d.set(n, 1 + rng.below(9), 1 + rng.below(3), rng.below(9), rng); label = "dm.set"; call = c2; r = r2; }
+                4..=8 if cnt > 0 && !order.is_empty() => {
+                    let cnt = cnt.min(order.len() as u64); // (the mirror is only a guide for choosing victims)
                     let cand = [0u64, bs - 1, bs, bs + 1, 2 * bs - 1, 2 * bs, cnt - 1, cnt.saturating_sub(2), rng.below(cnt)];
                     let i = *rng.pick(&cand); let i = if i < cnt { i } else { cnt - 1 };
                     let n = order[i as usize]; probes.push(n); probes.push(order[(cnt - 1) as usize]);
                     let (c2, r2) = d.remove(n);
-                    if r2.is_some() { let last = order.pop().unwrap(); if (i as usize) < order.len() { order[i as usize] = last; } }
+                    if r2.is_some() { if let Some(last) = order.pop() { if (i as usize) < order.len() { order[i as usize] = last; } } }
                     label = "dm.remove"; call = c2; r = r2;
                 }
                 _ => { let n = next + 5; probes.push(n); let (c2, r2) = d.remove(n); label = "dm.remove"; call = c2; r = r2; }
@@ -726,6 +768,8 @@ fn run_docs(out: &mut Out, rng: &mut Rng) {
             }
         }
         let lim = |d: &Dm, names: &[u64]| d.queries(names, &[0, (maxd - 1) as u32, maxd as u32], &[(maxd / bs - 1) as u32, (maxd / bs) as u32]);
+        advance(&d.e, 4_000_000);
+        tr.advance(out, "dm", 4_000_000, "tt", lim(&d, &[0, maxd - 1]));
         let (call, r) = d.set(maxd, 3, 2, 1, rng); tr.push(out, "dm.set.limit", &call, r, lim(&d, &[maxd]));
         let (call, r) = d.set(7, 4, 2, 5, rng); tr.push(out, "dm.set.limit", &call, r, lim(&d, &[7]));   // update at the limit
         let victim = rng.below(maxd);
@@ -753,8 +797,8 @@ impl<'a> Ct<'a> {
     fn u32s(&self, ts: &[u64]) -> Vec<u32> { let mut v = Vec::new(&self.e); for t in ts { v.push_back(*t as u32); } v }
     fn queries(&self, topics: &[u64], issuers: &[usize], pairs: bool) -> std::vec::Vec<String> {
         let mut q = vec![];
-        q.push(format!("(CqTopics, CaList {})", nlist(&self.c.get_claim_topics().iter().map(|x| x as u64).collect::<std::vec::Vec<_>>())));
-        q.push(format!("(CqIssuers, CaList {})", nlist(&self.u.ids(&self.c.get_trusted_issuers()))));
+        q.push(match tryv!(self.c.try_get_claim_topics()) { Some(v) => format!("(CqTopics, CaList {})", nlist(&v.iter().map(|x| x as u64).collect::<std::vec::Vec<_>>())), None => "(CqTopics, CaTrap)".into() });
+        q.push(match tryv!(self.c.try_get_trusted_issuers()) { Some(v) => format!("(CqIssuers, CaList {})", nlist(&self.u.ids(&v))), None => "(CqIssuers, CaTrap)".into() });
         for &t in topics {
             let r = match self.c.try_get_topic_issuers(&(t as u32)) { Ok(Ok(v)) => okv(&nlist(&self.u.ids(&v))), _ => "Fail".into() };
             q.push(format!("(CqTopicIssuers {}, CaRList {})", t, r));
@@ -763,7 +807,7 @@ impl<'a> Ct<'a> {
             let a = &self.u.a[i];
             let r = match self.c.try_get_issuer_topics(a) { Ok(Ok(v)) => okv(&nlist(&v.iter().map(|x| x as u64).collect::<std::vec::Vec<_>>())), _ => "Fail".into() };
             q.push(format!("(CqIssuerTopics {}, CaRList {})", i, r));
-            q.push(format!("(CqIsTrusted {}, CaBool {})", i, b(self.c.is_trusted_issuer(a))));
+            q.push(match tryv!(self.c.try_is_trusted_issuer(a)) { Some(x) => format!("(CqIsTrusted {}, CaBool {})", i, b(x)), None => format!("(CqIsTrusted {}, CaTrap)", i) });
             if pairs { for &t in topics {
                 let r = match self.c.try_has_claim_topic(a, &(t as u32)) { Ok(Ok(x)) => okv(&b(x)), _ => "Fail".into() };
                 q.push(format!("(CqHasTopic {} {}, CaRBool {})", i, t, r));
@@ -793,8 +837,12 @@ fn run_cti(out: &mut Out, rng: &mut Rng) {
         let issuers: std::vec::Vec<usize> = (0..ni).collect();
         let ncalls = if thorough { 50 } else { 28 };
         for step in 0..ncalls {
-            let cur_t: std::vec::Vec<u64> = t.c.get_claim_topics().iter().map(|x| x as u64).collect();
-            let cur_i: std::vec::Vec<u64> = t.u.ids(&t.c.get_trusted_issuers());
+            if step > 2 && rng.chance(1, 10) {
+                let n = *rng.pick(&GAPS); advance(&t.e, n);
+                tr.advance(out, "cti", n, "tt", t.queries(&topics, &issuers, true));
+            }
+            let cur_t: std::vec::Vec<u64> = tryv!(t.c.try_get_claim_topics()).map(|v| v.iter().map(|x| x as u64).collect()).unwrap_or_default();
+            let cur_i: std::vec::Vec<u64> = tryv!(t.c.try_get_trusted_issuers()).map(|v| t.u.ids(&v)).unwrap_or_default();
             let subset = |rng: &mut Rng| -> std::vec::Vec<u64> {
                 // mostly a non-empty duplicate-free subset of the existing topics, in random order;
                 // sometimes empty / with a duplicate / with an unknown or removed topic
@@ -846,7 +894,8 @@ fn run_cti(out: &mut Out, rng: &mut Rng) {
             tr.push(out, "cti.add_topic.limit", &format!("CtAddTopic {}", x), r, t.queries(&[x], &[], false));
         }
         // issuers: every one with a few topics; the first with ALL topics (a full-size topic list)
-        let cur_t: std::vec::Vec<u64> = t.c.get_claim_topics().iter().map(|x| x as u64).collect();
+        let mut cur_t: std::vec::Vec<u64> = tryv!(t.c.try_get_claim_topics()).map(|v| v.iter().map(|x| x as u64).collect()).unwrap_or_default();
+        if cur_t.is_empty() { cur_t.push(1); } // (only when the code under test lost the topics)
         for i in 0..maxi + 1 {
             let ts: std::vec::Vec<u64> = if i == 0 { cur_t.clone() } else { let k = 1 + rng.below(3) as usize; (0..k).map(|j| cur_t[(i + j * 5) % cur_t.len()]).collect::<std::collections::BTreeSet<_>>().into_iter().collect() };
             let r = unit_ok(t.c.try_add_trusted_issuer(&t.u.a[i], &t.u32s(&ts)));
@@ -860,6 +909,9 @@ fn run_cti(out: &mut Out, rng: &mut Rng) {
             let r = unit_ok(t.c.try_add_trusted_issuer(&t.u.a[i], &t.u32s(&ts)));
             tr.push(out, "cti.add_issuer.limit", &format!("CtAddIssuer {} {}", i, nlist(&ts)), r, t.queries(&cur_t, &[i], false));
         }
+        let alli0: std::vec::Vec<usize> = (0..maxi + 2).collect();
+        advance(&t.e, 4_000_000);
+        tr.advance(out, "cti", 4_000_000, "tt", t.queries(&all_t, &alli0, false));
         // dropping a topic that every issuer of it loses; then the last issuer of a topic
         let x = cur_t[0];
         let r = unit_ok(t.c.try_remove_claim_topic(&(x as u32)));
@@ -910,8 +962,10 @@ impl<'a> Ck<'a> {
             let r = match self.c.try_registries(&pk_bytes(&self.e, pk), &(sc as u32)) { Ok(Ok(v)) => okv(&nlist(&self.u.ids(&v))), _ => "Fail".into() };
             q.push(format!("(KqRegistries ({}, {}), KaRegs {})", pk, sc, r));
             if cross {
-                for &t in topics { q.push(format!("(KqAllowedTopic ({}, {}) {}, KaBool {})", pk, sc, t, b(self.c.allowed_topic(&pk_bytes(&self.e, pk), &(sc as u32), &(t as u32))))); }
-                for &rg in regs { q.push(format!("(KqAllowedRegistry ({}, {}) {}, KaBool {})", pk, sc, rg, b(self.c.allowed_registry(&pk_bytes(&self.e, pk), &(sc as u32), &self.regs[rg])))); }
+                for &t in topics { q.push(match tryv!(self.c.try_allowed_topic(&pk_bytes(&self.e, pk), &(sc as u32), &(t as u32))) {
+                    Some(x) => format!("(KqAllowedTopic ({}, {}) {}, KaBool {})", pk, sc, t, b(x)), None => format!("(KqAllowedTopic ({}, {}) {}, KaTrap)", pk, sc, t) }); }
+                for &rg in regs { q.push(match tryv!(self.c.try_allowed_registry(&pk_bytes(&self.e, pk), &(sc as u32), &self.regs[rg])) {
+                    Some(x) => format!("(KqAllowedRegistry ({}, {}) {}, KaBool {})", pk, sc, rg, b(x)), None => format!("(KqAllowedRegistry ({}, {}) {}, KaTrap)", pk, sc, rg) }); }
             }
         }
         q
@@ -938,6 +992,10 @@ fn run_keys(out: &mut Out, rng: &mut Rng) {
         let ncalls = if thorough { 50 } else { 28 };
         let mut allowed: std::vec::Vec<(u64, usize, u64, u64)> = vec![];
         for _ in 0..ncalls {
+            if rng.chance(1, 10) {
+                let n = *rng.pick(&GAPS); advance(&k.e, n);
+                tr.advance(out, "ck", n, "tt", k.queries(&topics, &keys, &regs, true));
+            }
             let (label, call, r);
             if rng.chance(3, 5) {
                 let pk = if rng.chance(1, 12) { 0 } else { 1 + rng.below(npk) };
@@ -973,6 +1031,8 @@ fn run_keys(out: &mut Out, rng: &mut Rng) {
             let (call, r) = k.allow(key.0, rg, key.1, t, 0);
             tr.push(out, if n as u64 + 2 >= maxr { "ck.allow.reg_limit" } else { "ck.allow" }, &call, r, k.queries(&[t], &[key], &regs, n as u64 + 2 >= maxr));
         }
+        advance(&k.e, 4_000_000);
+        tr.advance(out, "ck", 4_000_000, "tt", k.queries(&topics, &[key], &regs, true));
         let (vr, vt) = pairs[rng.below(maxr) as usize];
         let (call, r) = k.remove(key.0, vr, key.1, vt);
         tr.push(out, "ck.remove", &call, r, k.queries(&topics, &[key], &regs, true));
@@ -1058,9 +1118,11 @@ impl<'a> Ir<'a> {
                 let r = match self.c.try_country(ad, &i) { Ok(Ok(c)) => okv(&cd_coq(&c)), _ => "Fail".into() };
                 q.push(format!("(IqCountry {} {}, IaCountry {})", a, i, r));
             }
-            q.push(format!("(IqCountries {}, IaCountries {})", a, list(&self.c.countries(ad).iter().map(|c| cd_coq(&c)).collect::<std::vec::Vec<_>>())));
-            let r = match self.c.recovered_to(ad) { Some(x) => format!("(Some {})", self.u.id(&x)), None => "None".into() };
-            q.push(format!("(IqRecovered {}, IaOpt {})", a, r));
+            q.push(match tryv!(self.c.try_countries(ad)) { Some(v) => format!("(IqCountries {}, IaCountries {})", a, list(&v.iter().map(|c| cd_coq(&c)).collect::<std::vec::Vec<_>>())), None => format!("(IqCountries {}, IaTrap)", a) });
+            q.push(match tryv!(self.c.try_recovered_to(ad)) {
+                Some(Some(x)) => format!("(IqRecovered {}, IaOpt (Some {}))", a, self.u.id(&x)),
+                Some(None) => format!("(IqRecovered {}, IaOpt None)", a),
+                None => format!("(IqRecovered {}, IaTrap)", a) });
         }
         q
     }
@@ -1088,8 +1150,12 @@ fn run_irs(out: &mut Out, rng: &mut Rng) {
             (code, meta)
         };
         for _ in 0..ncalls {
+            if rng.chance(1, 10) {
+                let n = *rng.pick(&GAPS); advance(&t.e, n);
+                tr.advance(out, "irs", n, "tt", t.queries(&accts));
+            }
             let have: std::vec::Vec<usize> = (0..nacct).filter(|i| t.c.try_stored_identity(&t.u.a[*i]).map(|r| r.is_ok()).unwrap_or(false)).collect();
-            let free: std::vec::Vec<usize> = (0..nacct).filter(|i| !have.contains(i) && t.c.recovered_to(&t.u.a[*i]).is_none()).collect();
+            let free: std::vec::Vec<usize> = (0..nacct).filter(|i| !have.contains(i) && matches!(tryv!(t.c.try_recovered_to(&t.u.a[*i])), Some(None))).collect();
             let mut a = rng.below(nacct as u64) as usize;
             let ident = nacct + rng.below(2) as usize;
             let (label, call, r);
@@ -1108,18 +1174,18 @@ fn run_irs(out: &mut Out, rng: &mut Rng) {
                            r = unit_ok(t.c.try_recover_identity(&t.u.a[a], &t.u.a[nw])); label = "irs.recover"; call = format!("IrRecover {} {}", a, nw); }
                 9..=10 => {
                     if !have.is_empty() && rng.chance(3, 4) { a = *rng.pick(&have); }
-                    let have = t.c.countries(&t.u.a[a]).len() as u64;
+                    let have = tryv!(t.c.try_countries(&t.u.a[a])).map(|v| v.len()).unwrap_or(0) as u64;
                     let n = if limit_heavy && have > 0 && have <= maxc { match rng.below(3) { 0 => maxc - have, 1 => maxc - have + 1, _ => 1 } } else { match rng.below(8) { 0 => 0, _ => 1 + rng.below(2) } };
                     let ds: std::vec::Vec<Cd> = (0..n).map(|_| rand_cd(rng)).collect();
                     r = unit_ok(t.c.try_add_countries(&t.u.a[a], &t.cds(&ds)));
                     label = "irs.add_countries"; call = format!("IrAddCountries {} {}", a, list(&ds.iter().map(cd_coq_desc).collect::<std::vec::Vec<_>>()));
                 }
                 11 => { if !have.is_empty() && rng.chance(3, 4) { a = *rng.pick(&have); }
-                        let have = t.c.countries(&t.u.a[a]).len() as u64; let i = match rng.below(4) { 0 => have, 1 => have.saturating_sub(1), _ => rng.below(have + 1) };
+                        let have = tryv!(t.c.try_countries(&t.u.a[a])).map(|v| v.len()).unwrap_or(0) as u64; let i = match rng.below(4) { 0 => have, 1 => have.saturating_sub(1), _ => rng.below(have + 1) };
                         let d = rand_cd(rng);
                         r = unit_ok(t.c.try_modify_country(&t.u.a[a], &(i as u32), &cd_make(&t.e, &d))); label = "irs.modify_country"; call = format!("IrModifyCountry {} {} {}", a, i, cd_coq_desc(&d)); }
                 _ => { if !have.is_empty() && rng.chance(3, 4) { a = *rng.pick(&have); }
-                       let have = t.c.countries(&t.u.a[a]).len() as u64; let i = match rng.below(4) { 0 => have, 1 => have.saturating_sub(1), _ => rng.below(have + 1) };
+                       let have = tryv!(t.c.try_countries(&t.u.a[a])).map(|v| v.len()).unwrap_or(0) as u64; let i = match rng.below(4) { 0 => have, 1 => have.saturating_sub(1), _ => rng.below(have + 1) };
                        r = unit_ok(t.c.try_delete_country(&t.u.a[a], &(i as u32))); label = "irs.delete_country"; call = format!("IrDeleteCountry {} {}", a, i); }
             }
             tr.push(out, label, &call, r, t.queries(&accts));
@@ -1135,20 +1201,20 @@ fn run_irs(out: &mut Out, rng: &mut Rng) {
 fn hook_of(h: u64) -> ComplianceHook {
     match h { 0 => ComplianceHook::Transferred, 1 => ComplianceHook::Created, 2 => ComplianceHook::Destroyed, 3 => ComplianceHook::CanTransfer, _ => ComplianceHook::CanCreate }
 }
-struct Cm<'a> { c: CmCClient<'a>, u: Uni }
+struct Cm<'a> { e: Env, c: CmCClient<'a>, u: Uni }
 impl<'a> Cm<'a> {
     fn new(n: usize) -> Cm<'a> {
         let e = new_env();
         let id = e.register(CmC, ());
         let c = CmCClient::new(&e, &id);
         let u = Uni::new(&e, n);
-        Cm { c, u }
+        Cm { e, c, u }
     }
     fn queries(&self, hooks: &[u64], mods: &[usize]) -> std::vec::Vec<String> {
         let mut q = vec![];
         for &h in hooks {
-            q.push(format!("(MqModules {}, MaList {})", h, nlist(&self.u.ids(&self.c.modules(&hook_of(h))))));
-            for &m in mods { q.push(format!("(MqIsRegistered {} {}, MaBool {})", h, m, b(self.c.is_registered(&hook_of(h), &self.u.a[m])))); }
+            q.push(match tryv!(self.c.try_modules(&hook_of(h))) { Some(v) => format!("(MqModules {}, MaList {})", h, nlist(&self.u.ids(&v))), None => format!("(MqModules {}, MaTrap)", h) });
+            for &m in mods { q.push(match tryv!(self.c.try_is_registered(&hook_of(h), &self.u.a[m])) { Some(x) => format!("(MqIsRegistered {} {}, MaBool {})", h, m, b(x)), None => format!("(MqIsRegistered {} {}, MaTrap)", h, m) }); }
         }
         q
     }
@@ -1167,8 +1233,12 @@ fn run_compliance(out: &mut Out, rng: &mut Rng) {
         let mods: std::vec::Vec<usize> = (0..nm).collect();
         let ncalls = if thorough { 50 } else { 28 };
         for _ in 0..ncalls {
+            if rng.chance(1, 10) {
+                let n = *rng.pick(&GAPS); advance(&t.e, n);
+                tr.advance(out, "cm", n, "tt", t.queries(&hooks, &mods));
+            }
             let hn = if rng.chance(1, 2) { 2 } else { 5 }; let h = rng.below(hn);
-            let cur = t.u.ids(&t.c.modules(&hook_of(h)));
+            let cur = tryv!(t.c.try_modules(&hook_of(h))).map(|v| t.u.ids(&v)).unwrap_or_default();
             let (label, call, r);
             if rng.chance(1, 2) {
                 let m = rng.below(nm as u64) as usize;
@@ -1208,6 +1278,8 @@ fn run_compliance(out: &mut Out, rng: &mut Rng) {
             let r = unit_ok(t.c.try_add_module(&hook_of(h), &t.u.a[m]));
             tr.push(out, if m + 2 >= maxm { "cm.add.limit" } else { "cm.add" }, &format!("CmAdd {} {}", h, m), r, t.queries(&[h, h2], &[m]));
         }
+        advance(&t.e, 4_000_000);
+        tr.advance(out, "cm", 4_000_000, "tt", t.queries(&[h, h2], &[0, maxm - 1, maxm]));
         // the other hook is unaffected by the full one
         let r = unit_ok(t.c.try_add_module(&hook_of(h2), &t.u.a[maxm]));
         tr.push(out, "cm.add.limit", &format!("CmAdd {} {}", h2, maxm), r, t.queries(&[h, h2], &[maxm]));
@@ -1245,7 +1317,7 @@ impl<'a> Ic<'a> {
         Ic { e, c, u, ids, nt }
     }
     fn cid(&self, i: usize, t: u64) -> BytesN<32> { icl::generate_claim_id(&self.e, &self.u.a[i], t as u32) }
-    fn cid_coq(&self, b: &BytesN<32>) -> String { let (i, t) = self.ids.get(&b.to_array()).expect("claim id outside the universe"); format!("({}, {})", i, t) }
+    fn cid_coq(&self, b: &BytesN<32>) -> String { let (i, t) = self.ids.get(&b.to_array()).cloned().unwrap_or((999_999_999, 999_999_999)); format!("({}, {})", i, t) }
     fn bytes(&self, x: u64) -> Bytes { if x == 0 { Bytes::new(&self.e) } else { Bytes::from_array(&self.e, &x.to_be_bytes()) } }
     fn claim_coq(&self, c: &icl::Claim) -> String {
         format!("(Build_claim {} {} {} {} {} {})", c.topic, c.scheme, self.u.id(&c.issuer), pk_id(&c.signature), pk_id(&c.data), sstr(&c.uri).parse::<u64>().unwrap_or(0))
@@ -1257,8 +1329,9 @@ impl<'a> Ic<'a> {
             q.push(format!("(JqClaim ({}, {}), JaClaim {})", i, t, r));
         } }
         for t in 1..=self.nt + 1 {
-            let v: std::vec::Vec<String> = self.c.ids_by_topic(&(t as u32)).iter().map(|x| self.cid_coq(&x)).collect();
-            q.push(format!("(JqByTopic {}, JaIds {})", t, list(&v)));
+            q.push(match tryv!(self.c.try_ids_by_topic(&(t as u32))) {
+                Some(ids) => { let v: std::vec::Vec<String> = ids.iter().map(|x| self.cid_coq(&x)).collect(); format!("(JqByTopic {}, JaIds {})", t, list(&v)) }
+                None => format!("(JqByTopic {}, JaTrap)", t) });
         }
         q
     }
@@ -1274,6 +1347,10 @@ fn run_claims(out: &mut Out, rng: &mut Rng) {
         let ncalls = if thorough { 50 } else { 28 };
         let mut present: std::vec::Vec<(usize, u64)> = vec![];
         for _ in 0..ncalls {
+            if rng.chance(1, 10) {
+                let n = *rng.pick(&GAPS); advance(&t.e, n);
+                tr.advance(out, "ic", n, "None", t.queries());
+            }
             if rng.chance(3, 5) {
                 let (i, tp) = (rng.below(ni as u64) as usize, 1 + rng.below(nt));
                 let (scheme, sig, data, uri) = (101 + rng.below(2), if rng.chance(1, 8) { 0 } else { 1 + rng.below(3) }, rng.below(3), rng.below(4));
@@ -1337,7 +1414,7 @@ impl<'a> Sa<'a> {
     }
     fn name(&self, n: u64) -> SString { SString::from_str(&self.e, &format!("{}", n)) }
     fn queries(&self, max_id: u32, ctxs: &[Cx]) -> std::vec::Vec<String> {
-        let mut q = vec![format!("(SqCount, SaNat {})", self.c.count())];
+        let mut q = vec![match tryv!(self.c.try_count()) { Some(n) => format!("(SqCount, SaNat {})", n), None => "(SqCount, SaTrap)".into() }];
         for id in 0..=max_id {
             let r = match self.c.try_rule(&id) { Ok(Ok(r)) => okv(&self.rule_coq(&r)), _ => "Fail".into() };
             q.push(format!("(SqRule {}, SaRule {})", id, r));
@@ -1374,8 +1451,8 @@ fn run_sa(out: &mut Out, rng: &mut Rng) {
     let maxp = sal::MAX_POLICIES as u64;
     let thorough = out.cfg.thorough;
     let scale = out.cfg.scale as usize;
-    let now = 100u32;
-    let header = format!("TrSA {} {} {} {}", maxr, maxs, maxp, now);
+    let now0 = 100u32;
+    let header = format!("TrSA {} {} {} {}", maxr, maxs, maxp, now0);
     let na = if thorough { 600 } else { 70 } * scale;
     for it in 0..na {
         let mode = it % 4; // 0,1: general; 2: rule-count limit; 3: signer / policy limits
@@ -1386,6 +1463,7 @@ fn run_sa(out: &mut Out, rng: &mut Rng) {
         let ctxs: std::vec::Vec<Cx> = vec![(0, 0), (1, 0), (1, 1), (2, 5)];
         let ncalls = if thorough { 50 } else { 30 };
         let mut next_id_guess = 0u32;
+        let mut now = now0;
         let rand_sg = |rng: &mut Rng| -> Sg { if rng.chance(1, 2) { (0, rng.below(naddr.min(3) as u64) as usize, 0) } else { (1, rng.below(2) as usize, 1 + rng.below(2)) } };
         if mode == 3 {
             // directed: MAX_SIGNERS and MAX_POLICIES at the limit and one past it
@@ -1422,6 +1500,10 @@ fn run_sa(out: &mut Out, rng: &mut Rng) {
             tr.push(out, "sa.policy_limit", &format!("SaAddPolicy 0 {} true", mp + 1), r, t.queries(1, &ctxs));
         }
         for step in 0..ncalls {
+            if (mode == 3 && step == 0) || rng.chance(1, 10) {
+                let n = if mode == 3 && step == 0 { 4_000_000 } else { *rng.pick(&GAPS) }; advance(&t.e, n); now += n as u32;
+                tr.advance(out, "sa", n, "None", t.queries(next_id_guess + 1, &ctxs));
+            }
             let live: std::vec::Vec<u32> = (0..next_id_guess + 1).filter(|i| t.c.try_rule(i).map(|r| r.is_ok()).unwrap_or(false)).collect();
             let pick_id = |rng: &mut Rng| -> u32 { if !live.is_empty() && rng.chance(5, 6) { *rng.pick(&live) } else { rng.below(next_id_guess as u64 + 2) as u32 } };
             let (label, call, r): (&str, String, Option<String>);
@@ -1492,7 +1574,13 @@ fn main() {
         if let Some(o) = &only { if o != name { continue; } }
         let t0 = std::time::Instant::now();
         let c0 = out.calls;
-        f(&mut out, &mut r);
+        // last resort: should the harness itself trip over an answer of the code under test, the section is
+        // cut short and a sentinel trace is emitted that both the diff and the monitor flag (never on the unchanged tree)
+        let res = std::panic::catch_unwind(std::panic::AssertUnwindSafe(|| f(&mut out, &mut r)));
+        if res.is_err() {
+            out.label(&format!("{}.harness_sentinel", name));
+            out.trace(&format!("{}/harness-sentinel", name), "TrCM 0 [(Advance 0, Fail, [])]".to_string(), 1);
+        }
         eprintln!("c20 {}: {:?}, calls {}", name, t0.elapsed(), out.calls - c0);
     }
     out.finish();
